@@ -25,7 +25,7 @@
 (* EventOk on the line just consumed (TLC caches LET values in invariants, *)
 (* not in actions).                                                        *)
 (***************************************************************************)
-EXTENDS CompOps, RunLength, TraceLib
+EXTENDS CompOps, RunLength, MinOps, TraceLib
 
 LetterByte == <<65, 67, 71, 84>>
 DecodeBytes(q) == [i \in 1..Len(q) |-> LetterByte[q[i] + 1]]
@@ -152,6 +152,58 @@ CtrBigOk(e) ==
           /\ e.lines[i][2] = SumOcc(e.recs, e.k, d)
      /\ \A i, j \in 1..Len(e.lines) : i # j => e.lines[i][1] # e.lines[j][1]
 
+\* coverage rows (C08) of records given by run lengths, counted against the same file: entry b of row i is the number of
+\* windows of record i whose canonical k-mer occurs c times in the whole input with min(c div bs, bc - 1) = b
+MinOf(a, b) == IF a < b THEN a ELSE b
+CovBigOk(e) ==
+  /\ \A i \in 1..Len(e.recs) : RleOk(e.recs[i], e.k)
+  /\ Len(e.rows) = Len(e.recs)
+  /\ \A i \in 1..Len(e.recs) :
+       LET pairs == RlePairs(e.recs[i], e.k)
+           bins == [p \in 1..Len(pairs) |-> MinOf(SumOcc(e.recs, e.k, pairs[p][1]) \div e.bs, e.bc - 1)]
+           tot == RleTotal(e.recs[i], e.k)
+           row == e.rows[i][2]
+           cols == RowCols(row)
+           hist(b) == LET t[p \in 0..Len(pairs)] == IF p = 0 THEN 0 ELSE t[p-1] + (IF bins[p] = b THEN pairs[p][2] ELSE 0)
+                      IN t[Len(pairs)]
+           used == {bins[p] : p \in 1..Len(pairs)}
+       IN /\ e.rows[i][1] = e.bc
+          /\ Len(row) % 2 = 0 /\ Cardinality(cols) = Len(row) \div 2
+          /\ \A b \in cols : b \in 0..(e.bc - 1)
+          /\ \A b \in cols \cup used :
+               IF e.norm = 0 THEN RowVal(row, b) = hist(b) ELSE NormOk(RowVal(row, b), hist(b), tot)
+
+\* ---- very many records (ordinals beyond 2^16, branches taken every 10 000th record): the records are drawn from a small
+\* pool; order[i] is the pool entry of record i, lineidx[i] the distinct output line that record i received
+ManyOligoOk(e) ==
+  LET P == Len(e.pool)
+      D == Len(e.distinct)
+      ok == [d \in 1..D |-> [p \in 1..P |->
+               ORecOk([k |-> e.k, norm |-> e.norm, bytes |-> e.pool[p], ncols |-> e.ncols[d], row |-> e.distinct[d], same |-> 0], e)]]
+  IN /\ Len(e.lineidx) = Len(e.order)                 \* one row per record, in input order
+     /\ \A i \in 1..Len(e.order) : e.lineidx[i] \in 1..D /\ e.order[i] \in 1..P /\ ok[e.lineidx[i]][e.order[i]]
+\* minimiser listings: for s2m the lines sorted by record number; for m2s the listing inverted back by the recorder
+\* (regions of each record sorted by start; `stray` = items naming no record, `keys` / `dkeys` = lines / distinct minimisers)
+ManyMinOk(e) ==
+  LET P == Len(e.pool)
+      D == Len(e.distinct)
+      exp == [p \in 1..P |-> RunsWM(Classes(e.pool[p]), IF e.w = 0 THEN Len(e.pool[p]) ELSE e.w, e.m)]
+  IN /\ Len(e.lineidx) = Len(e.order) /\ Len(e.ids) = Len(e.order)
+     /\ e.stray = 0 /\ e.keys = e.dkeys
+     /\ \A i \in 1..Len(e.order) : /\ e.ids[i] = i - 1                 \* every record exactly once
+                                    /\ e.lineidx[i] \in 1..D /\ e.order[i] \in 1..P
+                                    /\ e.distinct[e.lineidx[i]] = exp[e.order[i]]
+ManyCtrOk(e) ==
+  LET P == Len(e.pool)
+      cws == [p \in 1..P |-> CanonWindows(Classes(e.pool[p]), e.k)]
+      kinds == UNION {{cws[p][i] : i \in 1..Len(cws[p])} : p \in {q \in 1..P : e.mult[q] > 0}}
+      total(d) == LET t[p \in 0..P] == IF p = 0 THEN 0 ELSE t[p-1] + e.mult[p] * Occ(cws[p], d) IN t[P]
+  IN /\ Len(e.lines) = Cardinality(kinds) /\ e.temps = 0
+     /\ \A i \in 1..Len(e.lines) :
+          LET d == LowDigits(e.lines[i][1], e.k) IN
+          /\ HighZero(e.lines[i][1], e.k) /\ d \in kinds /\ e.lines[i][2] = total(d)
+     /\ \A i, j \in 1..Len(e.lines) : i # j => e.lines[i][1] # e.lines[j][1]
+
 EventOk ==
   l > 1 =>
     LET e == Rec[l - 1] IN
@@ -169,6 +221,10 @@ EventOk ==
       [] e.ev = "idx"    -> \A i \in 1..(Len(e.a) \div 2) : e.a[2 * i - 1] <= e.a[2 * i]
       [] e.ev = "ctrstress" -> CtrStressOk(e)
       [] e.ev = "ctrbig" -> CtrBigOk(e)
+      [] e.ev = "covbig" -> CovBigOk(e)
+      [] e.ev = "manyo"  -> ManyOligoOk(e)
+      [] e.ev = "manymin" -> ManyMinOk(e)
+      [] e.ev = "manyctr" -> ManyCtrOk(e)
       \* two renderings of the same quantity (e.g. bit patterns of the binding's and of the core's result) must be equal
       [] e.ev = "eq"     -> e.a = e.b /\ e.a # "missing"
       [] e.ev = "batchlen" -> e.got = e.n          \* a batch call returns one result per argument
